@@ -367,6 +367,15 @@ func c05Gen(group string, idx int, seed uint64, r *Rng, thorough bool) *c05Case 
 		p := c05Op{Kind: "pause", Delay: 320}
 		cs.Ops = []c05Op{t(30), p, {Kind: k, On: true}, p, t(40), p, {Kind: k, On: false}, p, t(50), p,
 			{Kind: k, On: true}, p, t(60), p, t(70), p, {Kind: k, On: false}, p, t(80), p, {Kind: k, On: true}, p, t(90)}
+	case "lenclass": // (session 3) single packets whose payload length sits on a boundary of the top-level wire
+		// form's length classes (1/2/4-byte length field: 255|256, 65535|65536), in both directions, each
+		// travelling alone (a pause lets the Job finish before the next is issued): a batched or
+		// fragmented packet goes through the nested form and never meets the top-level header switch
+		cs.SleepMs = 5
+		for _, n := range []int{255, 256, 65535, 65536, 65537} {
+			cs.Ops = append(cs.Ops, c05Op{Kind: "task", Client: 0, Size: n, Pad: r.Intn(30)}, c05Op{Kind: "pause", Delay: 120})
+			cs.Ops = append(cs.Ops, c05Op{Kind: "task", Client: 0, Size: 8 + r.Intn(20), Pad: n - 16}, c05Op{Kind: "pause", Delay: 120})
+		}
 	case "fragedge": // payloads in the band below a multiple of the (lowered) fragment limit, both directions:
 		// the sizes for which the announced fragment count exceeds the number of payload pieces
 		cs.OwnID, cs.NoModel = true, true
@@ -1285,6 +1294,7 @@ func c05Plan(c *Ctx) []c05Job {
 	add("wrapped-chan-burst", c.N(3, 12))
 	add("channel-idle", c.N(8, 60))
 	add("fragedge", c.N(2, 8))
+	add("lenclass", c.N(1, 4))
 	add("chan-cycle", c.N(2, 10))
 	if c.Thorough() {
 		add("big", 2)
